@@ -1,4 +1,5 @@
 import SakuraVerif.Model.Sutoton
+import SakuraVerif.Model.Lexer
 /-! # C18 (T0) — spacing, bar lines, separators and comments never change the music
 
 Model of the main loop of `lexer::lex` restricted to what it does *between* commands: the
@@ -147,5 +148,76 @@ theorem C18_fullwidth_dispatch (c : Nat) (h : 0xFF01 ≤ c ∧ c ≤ 0xFF5E) : z
 -- non-vacuity: a reader that takes one character as a command
 def oneChar (cs : List Nat) : Nat × List Nat := (cs.headD 0, cs.drop 1)
 example : cmds (lexLoop oneChar 50 [99, 32, 124, 47, 47, 120, 121, 10, 100, 59, 47, 42, 122, 42, 47, 101]) = [99, 100, 101] := by decide
+
+/-! ## the same laws on the literal lexer model (`Model.Lexer`, tied to `lexer.rs` by the `lexer` stream)
+
+`Lx.lexLoop` is the function-by-function model of `lex`; the layout arms below are theorems about it for **every**
+following text, fuel, line number and chord flag. -/
+
+/-- a blank, tab, CR, bar line or ';' (also full-width) yields nothing: the loop resumes after it -/
+theorem C18_lex_separator (tb : Int) (f : Nat) (c : Nat) (cs : List Nat) (ln : Int) (harm : Bool)
+    (h : isSep (zen2han c) = true) : Lx.lexLoop tb (f + 1) (c :: cs) ln harm = Lx.lexLoop tb f cs ln harm := by
+  simp only [isSep, Bool.or_eq_true, beq_iff_eq] at h
+  have h' : zen2han c = 32 ∨ zen2han c = 9 ∨ zen2han c = 13 ∨ zen2han c = 124 ∨ zen2han c = 59 := by
+    rcases h with (((h | h) | h) | h) | h <;> simp [h]
+  rw [Lx.lexLoop]
+  simp only [h', if_true]
+
+/-- a line break yields exactly one `LineNo` token carrying the next line number -/
+theorem C18_lex_newline (tb : Int) (f : Nat) (cs : List Nat) (ln : Int) (harm : Bool) :
+    Lx.lexLoop tb (f + 1) (10 :: cs) ln harm =
+      (Lx.lexLoop tb f cs (ln + 1) harm).map (fun o => ⟨Lx.Tok.mk .lineNo 0 (ln + 1) none [] none :: o.toks, o.errs⟩) := by
+  rw [Lx.lexLoop]
+  have hz : zen2han 10 = 10 := by decide
+  simp only [hz]
+  simp only [show ¬ ((10:Nat) = 32 ∨ (10:Nat) = 9 ∨ (10:Nat) = 13 ∨ (10:Nat) = 124 ∨ (10:Nat) = 59) by decide, if_false, if_true]
+  cases Lx.lexLoop tb f cs (ln + 1) harm <;> rfl
+
+theorem getLine_append (body r : List Nat) (ln : Int) (h : ∀ c ∈ body, c ≠ 10) :
+    (Lx.getLine (body ++ 10 :: r) ln).2 = ⟨r, ln + 1⟩ := by
+  induction body with
+  | nil => simp [Lx.getLine]
+  | cons b bs ih =>
+    have hb : b ≠ 10 := h b List.mem_cons_self
+    simp only [List.cons_append, Lx.getLine, hb, if_false]
+    exact ih (fun c hc => h c (List.mem_cons_of_mem _ hc))
+
+/-- `// comment` up to the end of the line: no token, the loop resumes on the next line with the line counted -/
+theorem C18_lex_line_comment (tb : Int) (f : Nat) (body r : List Nat) (ln : Int) (harm : Bool)
+    (h : ∀ c ∈ body, c ≠ 10) (hs : body.head? ≠ some 47) :
+    Lx.lexLoop tb (f + 1) (47 :: 47 :: (body ++ 10 :: r)) ln harm = Lx.lexLoop tb f r (ln + 1) harm := by
+  have hz : zen2han 47 = 47 := by decide
+  have hg : (Lx.getLine (47 :: 47 :: (body ++ 10 :: r)) ln).2 = ⟨r, ln + 1⟩ := by
+    have := getLine_append (47 :: 47 :: body) r ln (by
+      intro c hc
+      simp only [List.mem_cons] at hc
+      rcases hc with rfl | rfl | hc
+      · decide
+      · decide
+      · exact h c hc)
+    simpa using this
+  rw [Lx.lexLoop]
+  simp only [hz]
+  simp only [show ¬ ((47:Nat) = 32 ∨ (47:Nat) = 9 ∨ (47:Nat) = 13 ∨ (47:Nat) = 124 ∨ (47:Nat) = 59) by decide, if_false,
+    show ¬ ((47:Nat) = 10) by decide, show ¬ ((47:Nat) = 99 ∨ (47:Nat) = 100 ∨ (47:Nat) = 101 ∨ (47:Nat) = 102 ∨ (47:Nat) = 103 ∨ (47:Nat) = 97 ∨ (47:Nat) = 98) by decide,
+    show ¬ ((47:Nat) = 110) by decide, show ¬ ((47:Nat) = 114) by decide, show ¬ ((47:Nat) = 108) by decide, show ¬ ((47:Nat) = 111) by decide,
+    show ¬ ((47:Nat) = 113) by decide, show ¬ ((47:Nat) = 118) by decide, show ¬ ((47:Nat) = 116) by decide,
+    show ¬ (Lx.isUpper 47 = true ∨ (47:Nat) = 95) by decide, show ¬ ((47:Nat) = 35) by decide, show ¬ ((47:Nat) = 62) by decide,
+    show ¬ ((47:Nat) = 60) by decide, show ¬ ((47:Nat) = 41) by decide, show ¬ ((47:Nat) = 40) by decide, if_true]
+  cases body with
+  | nil => simp only [List.nil_append] at hg ⊢; simp [hg]
+  | cons b bs =>
+    have hb : b ≠ 47 := by simpa using hs
+    simp only [List.cons_append] at hg ⊢
+    split
+    · rename_i heq; simp at heq; exact absurd heq.1 hb
+    · simp [hg]
+    · rename_i heq; simp at heq
+    · rename_i heq; simp at heq
+    · rename_i h1 h2 h3 h4; exact absurd rfl (h2 _)
+
+-- non-vacuity on the concrete lexer: separators, a line break and a line comment between three notes
+example : ((Lx.lex 96 [99, 32, 124, 47, 47, 120, 121, 10, 100, 59, 10, 101] 0).map (fun o => o.toks.map Lx.Tok.ty)) =
+    some [.lineNo, .note, .note, .lineNo, .note] := by decide
 
 end Sakura.Props.C18
